@@ -7,8 +7,8 @@ from .util import norm_stmt
 
 GROUPS = {
     "timeouts": {"transport_timeout_s", "read_timeout_s", "timeout_s", "auth_timeout_s", "default_transport_timeout_s"},
-    "ids": {"arg0", "arg1", "local_id", "remote_id"},
-    "auth": {"rsa_keys", "auth_callback", "banner"},
+    "ids": {"arg0", "arg1", "local_id", "remote_id", "allow_zeros"},
+    "auth": {"rsa_keys", "auth_callback", "banner", "auth_timeout_s"},
     "stream": {"adb_info", "filesync_info", "expected_cmds", "expected_ids", "finish_ids", "msg", "cmd", "data", "allow_zeros", "size", "command_id"},
     "shell": {"service", "command", "decode"},
     "files": {"device_path", "local_path", "st_mode", "mtime", "progress_callback", "stream"},
@@ -45,7 +45,59 @@ def arg_rule(ctx, R, group, rule="ARG", min_count=0):
                 a = unawait(a)
                 if isinstance(a, ast.Name) and a.id in names and p in names and a.id != p and a.id not in pset:
                     pass
+    count += _forwarding(ctx, R, names, rule)
     R.rule_counts["%s[%s]" % (rule, group)] = count
     if count < min_count:
         R.count_failures.append((rule, "only %d name-consistent bindings found for group %s (expected >= %d)" % (count, group, min_count)))
+    return count
+
+
+# (caller, callee, parameter) where the caller deliberately passes something else than its own parameter of that name - confirmed by reading
+NOT_FORWARDED = {
+    ("find_allow_zeros", "find", "arg0"): "the zero fall-backs of the look-up are its purpose",
+    ("find_allow_zeros", "find", "arg1"): "the zero fall-backs of the look-up are its purpose",
+    ("push", "_push", "device_path"): "per-file path computed by get_files_to_push (decided by C07 DIR)",
+}
+
+
+def _mentions_param(t, p, depth=0):
+    if depth > 40 or not isinstance(t, tuple):
+        return False
+    if len(t) == 2 and t[0] == "p" and (t[1] == p or (isinstance(t[1], str) and t[1].split(":")[0] == p)):
+        return True
+    return any(_mentions_param(x, p, depth + 1) for x in t if isinstance(x, tuple))
+
+
+def _forwarding(ctx, R, names, rule):
+    """A parameter of the caller that the callee takes under the same name is forwarded: the argument bound to the callee's parameter is
+    computed from the caller's (directly, through locals, or through a helper applied to it) - not dropped for a literal or the default.
+    Measured on the pinned tree: 270 such bindings, the exceptions are the NOT_FORWARDED table."""
+    from .engine import terms
+    from .util import node_calls
+    T = terms(ctx)
+    count = 0
+    for f in list(ctx.cg.sites):
+        fparams = set(f.params) | set(getattr(f, "kwonly", ()))
+        if not (fparams & names):
+            continue
+        g = ctx.cfg(f)
+        for n in g.live_nodes():
+            for c in node_calls(n):
+                cs = ctx.cg.site(c)
+                if cs is None or len(cs.callees) != 1:
+                    continue
+                callee = cs.callees[0]
+                params = callee.call_params if callee.name != "__init__" else callee.params[1:]
+                pset = set(params) | set(callee.kwonly)
+                if any(isinstance(a, ast.Starred) for a in c.args) or any(k.arg is None for k in c.keywords):
+                    continue
+                binding = cs.bind(callee)
+                for p in sorted(pset & fparams & names):
+                    if (f.name, callee.name, p) in NOT_FORWARDED:
+                        continue
+                    count += 1
+                    a = binding.get(p)
+                    ok = a is not None and (any(isinstance(x, ast.Name) and x.id == p for x in ast.walk(a)) or _mentions_param(T.term(f, n, unawait(a)), p))
+                    R.check(ok, rule, "%s|%s|%s|forwarded" % (f.qualname, callee.name, p), "`%s` of %s reaches %s" % (p, f.name, callee.name),
+                            "%s does not pass its `%s` on to %s (%s): the caller's value is ignored" % (f.qualname, p, callee.qualname, "the default is used" if a is None else "`%s` is passed" % norm_stmt(a)[:40]), f.loc(c))
     return count
